@@ -221,39 +221,65 @@ theorem activate_upcoming {now : Int} {up act up' act' : Refs} (h : activate now
         cases h
         rw [List.filter_cons_of_pos (by simp only [decide_eq_true_eq]; omega), ih ha]
 
-/-- the gauges `checkFinishDistribution` moves. -/
-def finishing (g : Gauge) : Bool := !g.perpetual && decide (g.numEpochs ≤ g.filled + 1)
+theorem getGauge_id {gs : List Gauge} {id : Nat} {g : Gauge} (h : getGauge gs id = some g) : g.id = id := by
+  unfold getGauge at h
+  simpa using List.find?_some h
 
-theorem finishLoop_perm {snap : List Gauge} {act fin act' fin' : Refs} (h : finishLoop snap act fin = some (act', fin')) :
-    (refsIds act).Perm (((snap.filter finishing).map (·.id)) ++ refsIds act') ∧
-    (refsIds fin').Perm (((snap.filter finishing).map (·.id)) ++ refsIds fin) := by
+/-- the gauges `checkFinishDistribution` moves: candidates by the pre-distribution snapshot whose re-read record
+(in `store`, what the distribution wrote) has all its epochs filled. -/
+def finishing (store : List Gauge) (g : Gauge) : Bool :=
+  !g.perpetual && decide (g.numEpochs ≤ g.filled + 1) &&
+    (match getGauge store g.id with
+     | some u => decide (u.numEpochs ≤ u.filled)
+     | none => false)
+
+theorem finishLoop_perm {store snap : List Gauge} {act fin act' fin' : Refs}
+    (h : finishLoop store snap act fin = some (act', fin')) :
+    (refsIds act).Perm (((snap.filter (finishing store)).map (·.id)) ++ refsIds act') ∧
+    (refsIds fin').Perm (((snap.filter (finishing store)).map (·.id)) ++ refsIds fin) := by
   induction snap generalizing act fin with
   | nil => simp only [finishLoop] at h; cases h; exact ⟨List.Perm.refl _, List.Perm.refl _⟩
   | cons g gs ih =>
     simp only [finishLoop] at h
     by_cases hf : ¬ g.perpetual = true ∧ g.numEpochs ≤ g.filled + 1
     · rw [if_pos hf] at h
-      have hfin : finishing g = true := by
-        unfold finishing; simp only [Bool.and_eq_true, Bool.not_eq_true', decide_eq_true_eq]
-        exact ⟨by simpa using hf.1, hf.2⟩
-      cases hd : refsDel act g.start g.id with
-      | none => rw [hd] at h; cases h
-      | some act1 =>
-        rw [hd] at h
-        cases ha : refsAdd fin g.start g.id with
-        | none => rw [ha] at h; cases h
-        | some fin1 =>
-          rw [ha] at h
-          obtain ⟨i1, i2⟩ := ih h
-          rw [List.filter_cons_of_pos hfin, List.map_cons, List.cons_append, List.cons_append]
-          constructor
-          · exact (refsDel_perm hd).trans ((i1.cons g.id))
-          · refine i2.trans ?_
-            exact ((refsAdd_perm ha).append_left _).trans List.perm_middle
+      cases hu : getGauge store g.id with
+      | none => rw [hu] at h; cases h
+      | some u =>
+        rw [hu] at h
+        simp only at h
+        have hid : u.id = g.id := getGauge_id hu
+        by_cases hlt : u.filled < u.numEpochs
+        · rw [if_pos hlt] at h
+          have hfin : ¬ finishing store g = true := by
+            unfold finishing; rw [hu]
+            simp only [Bool.and_eq_true, decide_eq_true_eq]
+            intro hh; omega
+          rw [List.filter_cons_of_neg hfin]
+          exact ih h
+        · rw [if_neg hlt] at h
+          have hfin : finishing store g = true := by
+            unfold finishing; rw [hu]
+            simp only [Bool.and_eq_true, Bool.not_eq_true', decide_eq_true_eq]
+            exact ⟨⟨by simpa using hf.1, hf.2⟩, by omega⟩
+          cases hd : refsDel act u.start u.id with
+          | none => rw [hd] at h; cases h
+          | some act1 =>
+            rw [hd] at h
+            cases ha : refsAdd fin u.start u.id with
+            | none => rw [ha] at h; cases h
+            | some fin1 =>
+              rw [ha] at h
+              obtain ⟨i1, i2⟩ := ih h
+              rw [List.filter_cons_of_pos hfin, List.map_cons, List.cons_append, List.cons_append, ← hid]
+              constructor
+              · exact (refsDel_perm hd).trans ((i1.cons u.id))
+              · refine i2.trans ?_
+                exact ((refsAdd_perm ha).append_left _).trans List.perm_middle
     · rw [if_neg hf] at h
-      have hfin : ¬ finishing g = true := by
+      have hfin : ¬ finishing store g = true := by
         unfold finishing; simp only [Bool.and_eq_true, Bool.not_eq_true', decide_eq_true_eq]
-        intro hh; exact hf ⟨by simp [hh.1], hh.2⟩
+        intro hh; exact hf ⟨by simp [hh.1.1], hh.1.2⟩
       rw [List.filter_cons_of_neg hfin]
       exact ih h
 
